@@ -318,8 +318,21 @@ func (m c18Meta) metaObject() object.MetaObject {
 		switch a.kind {
 		case "fn":
 			mm := object.MetaMethod{Uid: a.uid, Name: a.name, ParametersSignature: tuple, ReturnSignature: a.ret.String()}
+			// the documentation a service attaches to its methods (it is not part of what the round trip keeps): none, one
+			// line, several lines, lines that read like IDL — a function of the action, so that a line replays
+			switch (int(a.uid) + len(a.name)) % 5 {
+			case 1:
+				mm.Description = "returns the " + a.name + " // uid:7 end"
+				mm.ReturnDescription = "a value"
+			case 2:
+				mm.Description = "first line about " + a.name + "\nsecond line\n\nlast paragraph"
+			case 3:
+				mm.Description = "see also\n\tfn stop() //uid:" + fmt.Sprint(a.uid+1000) + "\nend"
+			case 4:
+				mm.Description = " \r\n indented, with carriage returns\r\nand more\r\n"
+			}
 			for _, pn := range a.pnames {
-				mm.Parameters = append(mm.Parameters, object.MetaMethodParameter{Name: pn})
+				mm.Parameters = append(mm.Parameters, object.MetaMethodParameter{Name: pn, Description: "the " + pn + "\nof " + a.name})
 			}
 			mo.Methods[a.uid] = mm
 		case "sig":
